@@ -573,8 +573,8 @@ func c04StoreFn(c *Ctx, k *core, f *ssa.Function) {
 					continue
 				}
 				nc := litField(al, "newConfig")
-				if nc == nil || !derivesAll(nc, isRes, nil) {
-					continue
+				if nc != nil && !isNilConst(nc) && !derivesAll(nc, isRes, nil) {
+					continue // something other than the rejected value (or nothing) is shown as the new config
 				}
 				return true
 			}
